@@ -92,8 +92,20 @@ OBLIGATIONS = [
     "SkVerif.C14.adaptor_columnwise",
     "SkVerif.C14.minMax_closed_form",
 ]
-TRUSTED = []
-ASSUMPTIONS = []
+TRUSTED = [
+    "hand-written models lean/SkVerif/Model/C14{Panel,PAA,Seg,Interp,Impute,Feat}.lean of the anchored transformers, faithful to the extent this correspondence exercises them",
+    "numpy / pandas / scipy / statsmodels / scikit-learn primitives as black boxes with their documented meaning: np.full + slice assignment, Series.iloc[int array], np.hstack, ndarray.reshape, np.array_split, Python slicing, np.pad(mode='edge'), as_strided windows, np.linspace, scipy interp1d(kind='linear'/'nearest'), Series.fillna/mean/median/interpolate/replace, statsmodels acf(fft=False), MinMaxScaler / MaxAbsScaler",
+    "np.cos, the wrapped row transformers and the RandomIntervalFeatureExtractor feature callables are parameters of the model (theorems hold for any function); their values enter the correspondence as tables computed by the harness",
+    "np.std is compared through its square (the model returns the variance); statsmodels' default n_lags (uses log10) is resolved by the harness",
+]
+ASSUMPTIONS = [
+    "exact rational arithmetic: theorems say nothing about floating-point rounding (PAA compares floats with == inside its loop; no lost or shifted frame was observed for lengths <= 64)",
+    "Imputer: contiguous integer index (method='nearest' then measures distance in positions); methods 'random' and 'forecaster' are not closed-form and are not modelled; DataFrame input is column-wise Series input",
+    "TSInterpolator on a one-point series follows the installed scipy (only length 1 can be requested); older scipy rejects it outright",
+    "PAA: a later column shorter than num_intervals (only the first column is validated by the code) is outside the property's domain and not sent to the model",
+    "RandomIntervalFeatureExtractor: how the random intervals are drawn is not modelled; the fitted intervals are read back from the real object (or set by the harness) and the features of their slices are checked",
+    "row transformers / adaptor are checked with harness-defined and sklearn transformers that act column-wise",
+]
 OPS = {}
 
 
@@ -286,7 +298,7 @@ def pad_gen(tier, rng):
             for pl in ("none", -1, 0, 1, 3):       # relative to the longest series
                 for fit in ("same", "longer", "shorter"):
                     scope.append((shape, pl, fit))
-    for shape, pl, fit in slice_quick(scope, tier, rng, 260):
+    for shape, pl, fit in slice_quick(scope, tier, rng, 520):
         x = rand_panel(rng, shape)
         m = max(max(i) for i in shape)
         xfit = x if fit == "same" else rand_panel(rng, [[max(1, n + (1 if fit == "longer" else -1)) for n in i] for i in shape])
@@ -296,7 +308,7 @@ def pad_gen(tier, rng):
         cases.append({"op": "pad", "kind": kind, "pad_length": None if pl == "none" else m + pl,
                       "fill": rng.choice([0.0, 0.0, -1.5, 7.0, 0.25]), "xfit": xfit, "x": x, "t0": rng.choice([0, 0, 4])})
     # structured random: larger
-    for _ in range(60 if tier == "quick" else 900):
+    for _ in range(180 if tier == "quick" else 3600):
         ni, nc = rng.randrange(1, 5), rng.randrange(1, 4)
         equal = rng.random() < 0.3
         n0 = rng.randrange(1, 17)
@@ -369,7 +381,7 @@ def trunc_gen(tier, rng):
                      [(lo, up) for lo in range(-1, m + 1) for up in range(lo - 1, m + 2)] + [(None, 1), (None, m)]
             for lo, up in bounds:
                 scope.append((shape, lo, up))
-    for shape, lo, up in slice_quick(scope, tier, rng, 320):
+    for shape, lo, up in slice_quick(scope, tier, rng, 640):
         x = rand_panel(rng, shape)
         fit = rng.choice(["same", "same", "longer", "shorter"])
         xfit = x if fit == "same" else rand_panel(rng, [[max(1, n + (1 if fit == "longer" else -1)) for n in i] for i in shape])
@@ -377,7 +389,7 @@ def trunc_gen(tier, rng):
         if kind == "N" and not (is_rect(x) and is_rect(xfit)):
             kind = "S"
         cases.append({"op": "trunc", "kind": kind, "lower": lo, "upper": up, "xfit": xfit, "x": x, "t0": rng.choice([0, 0, 3])})
-    for _ in range(60 if tier == "quick" else 900):
+    for _ in range(180 if tier == "quick" else 3600):
         ni, nc = rng.randrange(1, 5), rng.randrange(1, 4)
         equal = rng.random() < 0.3
         n0 = rng.randrange(1, 17)
@@ -444,7 +456,7 @@ def tab_gen(tier, rng):
                 for ragged in (False, True):
                     scope.append((ni, list(lens), ragged))
     for op in ("tab", "concat"):
-        for ni, lens, ragged in slice_quick(scope, tier, rng, 120):
+        for ni, lens, ragged in slice_quick(scope, tier, rng, 240):
             shape = [list(lens) for _ in range(ni)]
             if ragged and ni > 1:
                 shape[rng.randrange(1, ni)][rng.randrange(len(lens))] += 1
@@ -453,7 +465,7 @@ def tab_gen(tier, rng):
             if kind == "N" and not is_rect(x):
                 kind = "S"
             cases.append({"op": op, "kind": kind, "x": x, "t0": rng.choice([0, 0, 2])})
-        for _ in range(40 if tier == "quick" else 600):
+        for _ in range(120 if tier == "quick" else 2400):
             ni, nc = rng.randrange(1, 6), rng.randrange(1, 5)
             lens = [rng.randrange(1, 17) for _ in range(nc)]
             if rng.random() < 0.3:
@@ -540,13 +552,13 @@ def paa_oracle(c, out):
 
 def paa_gen(tier, rng):
     cases = []
-    nmax = 16 if tier == "quick" else 40
+    nmax = 20 if tier == "quick" else 64
     for n in range(1, nmax + 1):            # exhaustive in (length, number of intervals)
         for k in range(0, n + 2):
             if tier == "quick" and n > 8 and rng.random() < 0.5:
                 continue
             cases.append({"op": "paa", "kind": "S", "k": k, "x": [[rand_cell(rng, n, small=True)]], "t0": 0})
-    for _ in range(60 if tier == "quick" else 800):
+    for _ in range(180 if tier == "quick" else 3200):
         ni, nc = rng.randrange(1, 4), rng.randrange(1, 4)
         lens = [rng.randrange(1, 33) for _ in range(nc)]
         if rng.random() < 0.5:
@@ -642,13 +654,13 @@ def show_cell_list(cells):
 
 def iseg_gen(tier, rng):
     cases = []
-    nmax = 12 if tier == "quick" else 20
+    nmax = 16 if tier == "quick" else 32
     for n in range(1, nmax + 1):             # exhaustive in (length, number of intervals)
         for k in range(-1, n // 2 + 2):
             ni = rng.randrange(1, 4)
             x = rand_panel(rng, [[n]] * ni)
             cases.append({"op": "iseg", "kind": rng.choice(["S", "S", "A", "N"]), "intervals": k, "xfit": x, "x": x, "t0": 0})
-    for _ in range(80 if tier == "quick" else 1000):
+    for _ in range(240 if tier == "quick" else 4000):
         n = rng.randrange(1, 17)
         ni = rng.randrange(1, 4)
         x = rand_panel(rng, [[n]] * ni)
@@ -674,7 +686,7 @@ def iseg_gen(tier, rng):
             c["as_array"] = False        # a plain list is not accepted
         cases.append(c)
     # malformed panels: two columns, unequal lengths
-    for _ in range(6 if tier == "quick" else 40):
+    for _ in range(18 if tier == "quick" else 160):
         x = rand_panel(rng, [[4, 4], [4, 4]]) if rng.random() < 0.5 else rand_panel(rng, [[4], [5]])
         cases.append({"op": "iseg", "kind": "S", "intervals": 2, "xfit": x, "x": x, "t0": 0})
     return cases
@@ -724,17 +736,17 @@ def slide_oracle(c, out):
 
 def slide_gen(tier, rng):
     cases = []
-    nmax, wmax = (8, 10) if tier == "quick" else (12, 16)
+    nmax, wmax = (9, 12) if tier == "quick" else (16, 34)
     for n in range(1, nmax + 1):
         for w in range(-1, wmax + 1):
             x = rand_panel(rng, [[n]] * rng.randrange(1, 3))
             cases.append({"op": "slide", "kind": rng.choice(["S", "S", "A", "N"]), "w": w, "x": x, "t0": 0})
-    for _ in range(30 if tier == "quick" else 400):
+    for _ in range(90 if tier == "quick" else 1600):
         n = rng.randrange(1, 25)
         x = rand_panel(rng, [[n]] * rng.randrange(1, 5))
         w = rng.choice([rng.randrange(1, 2 * n + 3), rng.randrange(1, 8), 3.0, 0])
         cases.append({"op": "slide", "kind": rng.choice(["S", "S", "A", "N"]), "w": w, "x": x, "t0": rng.choice([0, 5])})
-    for _ in range(4 if tier == "quick" else 30):
+    for _ in range(12 if tier == "quick" else 120):
         x = rand_panel(rng, [[4, 4], [4, 4]]) if rng.random() < 0.5 else rand_panel(rng, [[4], [5]])
         cases.append({"op": "slide", "kind": "S", "w": 3, "x": x, "t0": 0})
     return cases
@@ -794,14 +806,14 @@ def interp_oracle(c, out):
 
 def interp_gen(tier, rng):
     cases = []
-    nmax, lmax = (9, 11) if tier == "quick" else (16, 20)
+    nmax, lmax = (10, 14) if tier == "quick" else (20, 40)
     for n in range(1, nmax + 1):
         for L in range(0, lmax + 1):
             if tier == "quick" and rng.random() < 0.4 and n > 2 and L > 2:
                 continue
             x = rand_panel(rng, [[n]])
             cases.append({"op": "interp", "kind": "S", "length": L, "x": x, "t0": 0})
-    for _ in range(60 if tier == "quick" else 800):
+    for _ in range(180 if tier == "quick" else 3200):
         ni, nc = rng.randrange(1, 4), rng.randrange(1, 4)
         equal = rng.random() < 0.4
         n0 = rng.randrange(2, 20)
@@ -939,15 +951,15 @@ def impute_oracle(c, out):
 def impute_gen(tier, rng):
     cases = []
     scope = []
-    for n in range(1, 7):                 # exhaustive: every missing-value mask up to length 6 x every method
+    for n in range(1, 7 if tier == "quick" else 9):   # exhaustive: every missing-value mask up to length 6 (thorough: 8) x every method
         for mask in range(2 ** n):
             for m in METHODS:
                 scope.append((n, mask, m))
-    for n, mask, m in slice_quick(scope, tier, rng, 420):
+    for n, mask, m in slice_quick(scope, tier, rng, 840):
         z = [None if (mask >> i) & 1 else float(rng.randrange(-5, 9)) for i in range(n)]
         cases.append({"op": "impute", "method": m, "value": float(rng.randrange(-3, 4)) + 0.5 if m == "constant" else None,
                       "mv": None, "z": z, "i0": rng.choice([0, 0, 10])})
-    for _ in range(150 if tier == "quick" else 2000):
+    for _ in range(450 if tier == "quick" else 8000):
         n = rng.randrange(1, 31)
         pm = rng.choice([0.1, 0.3, 0.6, 0.9])
         z = [None if rng.random() < pm else (float(rng.randrange(-4, 5)) if rng.random() < 0.5 else dyadic(rng, -16, 16, 2)) for _ in range(n)]
@@ -1091,11 +1103,11 @@ def rife_gen(tier, rng):
     FE = ["mean", "var", "min", "max", "sum", "slope", "range"]
     # exhaustive: every single interval [a,b) of series of length <= 6, all features at once
     scope = [(n, a, b) for n in range(2, 7) for a in range(0, n) for b in range(a + 1, n + 1)]
-    for n, a, b in slice_quick(scope, tier, rng, 40):
+    for n, a, b in slice_quick(scope, tier, rng, 80):
         x = rand_panel(rng, [[n]] * rng.randrange(1, 3))
         cases.append({"op": "rife", "kind": "S", "mode": "given", "ivs": [[a, b]], "feats": FE, "n_intervals": 1,
                       "seed": 0, "x": x, "t0": 0})
-    for _ in range(80 if tier == "quick" else 900):
+    for _ in range(240 if tier == "quick" else 3600):
         n = rng.randrange(2, 25)
         x = rand_panel(rng, [[n]] * rng.randrange(1, 5))
         feats = rng.sample(FE, rng.randrange(1, 4))
@@ -1116,7 +1128,7 @@ def rife_gen(tier, rng):
                 if rng.random() < 0.5:
                     c["max_length"] = c["min_length"] + rng.randrange(0, 4)
             cases.append(c)
-    for _ in range(3 if tier == "quick" else 20):
+    for _ in range(9 if tier == "quick" else 80):
         x = rand_panel(rng, [[4, 4], [4, 4]]) if rng.random() < 0.5 else rand_panel(rng, [[4], [5]])
         cases.append({"op": "rife", "kind": "S", "mode": "given", "ivs": [[0, 2]], "feats": ["mean"], "n_intervals": 1,
                       "seed": 0, "x": x, "t0": 0})
@@ -1217,12 +1229,12 @@ def row_gen(tier, rng):
     cases = []
     scope = [(ni, nc, n, fn) for ni in (1, 2, 3) for nc in (1, 2, 3) for n in (1, 2, 3, 4)
              for fn in ("prim", "cumsum", "rev", "head2", "cos")]
-    for ni, nc, n, fn in slice_quick(scope, tier, rng, 90):
+    for ni, nc, n, fn in slice_quick(scope, tier, rng, 180):
         x = rand_panel(rng, [[n] * nc] * ni)
         kind = rng.choice(["S", "S", "A", "N"])
         cases.append({"op": "rowprim", "kind": kind, "x": x, "t0": 0} if fn == "prim" else
                      {"op": "rowser", "kind": kind, "fn": fn, "x": x, "t0": 0})
-    for _ in range(40 if tier == "quick" else 500):
+    for _ in range(120 if tier == "quick" else 2000):
         ni, nc, n = rng.randrange(1, 6), rng.randrange(1, 4), rng.randrange(1, 17)
         shape = [[n] * nc for _ in range(ni)]
         if rng.random() < 0.08 and ni > 1:
@@ -1292,13 +1304,13 @@ def acf_oracle(c, out):
 
 def acf_gen(tier, rng):
     cases = []
-    for n in range(1, 9 if tier == "quick" else 13):
+    for n in range(1, 10 if tier == "quick" else 17):
         for nl in [None] + list(range(-1, n + 2)):
             for adj in (False, True):
                 if tier == "quick" and rng.random() < 0.5:
                     continue
                 cases.append({"op": "acf", "z": rand_cell(rng, n, small=True), "adjusted": adj, "n_lags": nl, "i0": 0})
-    for _ in range(40 if tier == "quick" else 500):
+    for _ in range(120 if tier == "quick" else 2000):
         n = rng.randrange(2, 41)
         z = rand_cell(rng, n)
         if rng.random() < 0.05:
@@ -1343,7 +1355,7 @@ def cos_gen(tier, rng):
     cases = []
     for n in range(1, 7):
         cases.append({"op": "cos", "z": rand_cell(rng, n, small=True), "i0": 0})
-    for _ in range(20 if tier == "quick" else 300):
+    for _ in range(60 if tier == "quick" else 1200):
         cases.append({"op": "cos", "z": rand_cell(rng, rng.randrange(1, 30)), "i0": rng.choice([0, 3, -2])})
     return cases
 
@@ -1406,7 +1418,7 @@ def adapt_gen(tier, rng):
                     zfit[0] = [zfit[0][0]] * n
                 cases.append({"op": "adapt", "t": t, "zfit": zfit, "z": [rand_cell(rng, rng.randrange(1, 6)) for _ in range(nc)] if False else
                               [rand_cell(rng, n + 1) for _ in range(nc)], "i0": 0})
-    for _ in range(30 if tier == "quick" else 400):
+    for _ in range(90 if tier == "quick" else 1600):
         nc = rng.randrange(1, 4)
         n, k = rng.randrange(1, 20), rng.randrange(1, 20)
         zfit = [rand_cell(rng, n) for _ in range(nc)]
